@@ -190,7 +190,7 @@ def rand_roles(rng):
 
 def gen_random(ctx, fix):
     rng = ctx.rng
-    n = 900 if ctx.quick else 20000
+    n = 1500 if ctx.quick else 150000
     runs = []
     for i in range(n):
         roles, io = rand_roles(rng)
@@ -203,10 +203,11 @@ def gen_random(ctx, fix):
 
 
 SMALL = [  # (roles, cap, io, bound quick, bound thorough)
-    (["L", "E"], 2, 0, 3, 4), (["E", "L"], 2, 0, 3, 4), (["L", "W1"], 2, 0, 3, 4),
-    (["L", "E", "W1"], 2, 0, 2, 3), (["E", "L", "W1"], 2, 0, 2, 3), (["W1", "L", "E"], 2, 0, 2, 3),
-    (["L", "Hg"], 2, 0, 2, 3), (["L", "Hg", "E"], 2, 0, 1, 2), (["L", "Hgg"], 1, 0, 2, 3), (["L", "Hb", "E"], 2, 0, 1, 2),
-    (["X1", "W1"], 2, 0, 2, 3), (["L", "E", "I1"], 2, 1, 1, 2), (["E", "L", "I1"], 2, 1, 1, 2),
+    (["L", "E"], 2, 0, 4, 6), (["E", "L"], 2, 0, 4, 6), (["L", "W1"], 2, 0, 4, 6), (["L", "W2"], 2, 0, 3, 5),
+    (["L", "E", "W1"], 2, 0, 2, 4), (["E", "L", "W1"], 2, 0, 2, 4), (["W1", "L", "E"], 2, 0, 2, 4),
+    (["L", "Hg"], 2, 0, 3, 5), (["L", "Hg", "E"], 2, 0, 2, 3), (["L", "Hgg"], 1, 0, 3, 4), (["L", "Hb", "E"], 2, 0, 2, 3),
+    (["E", "L", "Hg"], 2, 0, 2, 3), (["X1", "W1"], 2, 0, 3, 5), (["X2", "W2", "E"], 2, 0, 1, 2),
+    (["L", "E", "I1"], 2, 1, 2, 3), (["E", "L", "I1"], 2, 1, 2, 3), (["L", "W1", "I1"], 2, 1, 2, 3),
 ]
 
 
@@ -218,7 +219,7 @@ def gen_systematic(ctx, hcmd, fix):
                 continue
             conf = ["conf %s %d %d %s" % (be, cap, io, " ".join(roles)), vline(fix)]
             bound = bq if ctx.quick else bt
-            g = vlib.explore_schedules(hcmd, conf, bound, max_runs=1500 if ctx.quick else 60000)
+            g = vlib.explore_schedules(hcmd, conf, bound, max_runs=2500 if ctx.quick else 120000)
             n = 0
             for sched, out in g:
                 n += 1
@@ -307,6 +308,9 @@ def judge(run, out):
             if m and roles[int(m.group(1))][0] != "I":
                 if not any(j > i for j in wake_entries):
                     return "wake-up request lost: no wake callback entered after '%s' (event %d) and the loop is parked" % (l, i)
+        if kv["queued"] != "0":
+            return ("hand-over lost: %s context(s) still in the hand-over queue while the loop is parked and "
+                    "every other thread has finished" % kv["queued"])
     # ---- contexts
     if returned and ev and ev[-1] != lp + "note run-returned":
         tail = [l for l in ev[ev.index(lp + "note run-returned"):] if l.startswith(lp)]
@@ -412,7 +416,9 @@ def replay(ctx, path):
     fix = static_inventory(_C)
     ops = [vline(fix) if l.startswith("variant ") else l for l in ops]
     a = vlib.run_one(hcmd, [l.replace("sched replay ", "sched prefix ", 1) for l in ops])
-    b = vlib.run_one(dcmd, ops)
+    # the model replays the schedule the real code actually ran (the prefix may have been continued)
+    sched = next((l[len("schedule "):] for l in a["out"] if l.startswith("schedule ")), "")
+    b = vlib.run_one(dcmd, [("sched replay " + sched) if l.startswith("sched ") else l for l in ops])
     print("\n".join(a["out"]))
     if a["crash"]:
         print("VIOLATION property=C14 replay=%s" % path)
